@@ -441,7 +441,7 @@ package lua
 //@ noraise
 //@ modifies nothing
 
-//@ func (*LState).PCall$1 [C05 C10 C12]
+//@ func (*LState).PCall$1 [C03 C05 C10 C12]
 //@ assume PCall recovery: at the moment the deferred closure runs the call-stack depth is at least the depth at PCall entry (sp <= Sp()), base <= top, and the registry/call-stack representation invariants hold (whole-execution facts, assumed)
 //@ requires ls != nil && ls.reg != nil && Inv_reg(ls.reg) && Inv_api(ls) && ls.stack != nil && $inv(ls.stack) && 0 <= sp && sp <= $sp(ls.stack) && 0 <= base && base <= ls.reg.top && ls.G != nil && (ls.currentFrame != nil ==> ls.currentFrame.Fn != nil)
 //@ ensures  "panic-mode-restored": ls.Panic == oldpanic
